@@ -125,6 +125,7 @@ pub struct HandlerRunner {
     next_del: usize,
     next_wru: HashMap<u64, usize>,
     next_req: HashMap<u64, usize>,
+    last_req: HashMap<u64, usize>,
     /// C04: requests outstanding when the current drain started: (node, rid) -> (sent_at, to)
     outstanding_snapshot: Vec<(u64, u64, u64, u64)>,
 }
@@ -156,6 +157,7 @@ impl Default for HandlerRunner {
             next_del: 0,
             next_wru: HashMap::new(),
             next_req: HashMap::new(),
+            last_req: HashMap::new(),
             outstanding_snapshot: Vec::new(),
         }
     }
@@ -995,7 +997,10 @@ impl HandlerRunner {
                     let v = *e;
                     if v < self.nodes[xi].requests.len() { *e += 1; }
                     v
+                } else if *r == "same" {
+                    *self.last_req.get(&xidx0).unwrap_or(&0)
                 } else { r.parse().unwrap_or(0) };
+                self.last_req.insert(xidx0, r);
                 let Some((na, req)) = self.nodes[xi].requests.get(r).cloned() else { return self.finish(None, None, 1, out, stats) };
                 let own = self.nodes[xi].enr.clone();
                 let kind: &str = if *kind == "auto" {
@@ -1006,6 +1011,7 @@ impl HandlerRunner {
                     "nodes1" => ResponseBody::Nodes { total: 1, nodes: vec![own] },
                     "nodes0" => ResponseBody::Nodes { total: 1, nodes: vec![] },
                     "nodes3" => ResponseBody::Nodes { total: 3, nodes: vec![] },
+                    "nodes2" => ResponseBody::Nodes { total: 2, nodes: vec![own] },
                     "nodesbad" => ResponseBody::Nodes { total: 1, nodes: vec![self.attacker_enr.clone().unwrap()] },
                     // the (validly signed) record of some other node, which may advertise no socket
                     "nodesother" => {
@@ -1343,6 +1349,24 @@ pub fn gen_case(rng: &mut Rng, tier: &str, profile: &str, stats: &mut Stats) -> 
         return ops;
     }
     let adversarial = profile == "C01" || profile == "C02" || profile == "C03" || rng.chance(1, 2);
+    if profile == "C02" && rng.chance(1, 3) {
+        // directed prefix: the handshake that answers a WHOAREYOU (and carries the node's record)
+        // is replaced in flight by a copy with bytes appended behind the record inside the
+        // auth-data (size field fixed, header re-masked): signature and record are intact, only the
+        // AEAD binding to the header can reject it
+        stats.bump("gen.cases.directed-authpad-handshake");
+        let x = rng.range(1, n);
+        let y = other(rng, x);
+        ops.push(format!("hreq {} {} enr {} {}", x, y, rid, rng.range(1, 4))); rid += 1;
+        ops.push("hdel next".into());
+        ops.push(format!("hwru {} next {}", y, if rng.chance(1, 2) { "none" } else { "stale" }));
+        ops.push("hdel next".into());
+        ops.push(format!("hmut next authpad {}", rng.below(7)));
+        ops.push("hdel last".into());
+        ops.push("hdel skip".into());
+        ops.push(format!("hresp {} next auto", y));
+        emitted += 5;
+    }
     if rng.chance(1, 8) {
         // directed prefix: dial without a record; the peer answers the request but not the internal
         // record request, which times out; a new request goes out and stays unanswered; then the
@@ -1446,7 +1470,17 @@ pub fn gen_case(rng: &mut Rng, tier: &str, profile: &str, stats: &mut Stats) -> 
                 ops.push(format!("hresp {} next {}", x, kind));
                 emitted += 1;
             }
-            85..=88 => ops.push(format!("hadv {}", match rng.below(5) { 0 => 401, 1 => 150, 2 => 399, 3 => 250, _ => 20 })),
+            85..=87 => ops.push(format!("hadv {}", match rng.below(5) { 0 => 401, 1 => 150, 2 => 399, 3 => 250, _ => 20 })),
+            88 => {
+                // a complete multi-packet NODES answer (every packet delivered), then a full timeout
+                let x = rng.range(1, n);
+                ops.push(format!("hresp {} next nodes2", x));
+                ops.push("hdel last".into());
+                ops.push(format!("hresp {} same nodes2", x));
+                ops.push("hdel last".into());
+                if rng.chance(1, 2) { ops.push("hadv 450".into()); }
+                emitted += 2;
+            }
             _ => {
                 if !adversarial { ops.push("hdel next".into()); emitted += 1; continue; }
                 let y = rng.range(1, n);
